@@ -13,7 +13,7 @@ CFG = dict(
                'the correspondence, not derived); harness printers. The link "no mutual recursion -> order_ok" is checked per case, not proved.',
     corr_name='Model/Datalog.v eval_engine vs IQLEngine::execute_tuples (all optimisations off, 1 worker)',
     rule='shape-first generator (1-4 derived heads + query, 1-3 clauses each, self recursion, 2-cycles, negation on lower heads/EDB, comparisons, '
-         'integer arithmetic, wildcards, constants, string column) x 1-2 EDBs over a 3-5 value domain, plus a hand-written corpus; '
+         'integer arithmetic, wildcards, constants, string column) x 1-2 EDBs over a 3-5 value domain, plus a hand-written corpus and targeted families: shared-subplan, bound-recursive query (`__query__` head, Magic Sets shape), negated relation defined later in the text, recursive answer relation, multi-key joins with permuted key order, union of projections, two-clause query heads, shuffled rule order; '
          'non-trivial = non-empty engine answer; distinct by program text + EDB + answer',
     trusted_base=['IQLEngine public API (with_config, add_tuples, execute_tuples)'],
     assumptions=['values in generated programs are Int64 and strings; comparisons other than =/!= only between integers'],
